@@ -42,6 +42,9 @@ def build_file(spec):
         progs.append(p)
     evs = SC.merge(progs, spec['schedule'])
     tm = [(SC.PROGRAM_TIDS[i], 100 * (i + 1), b'P%d_main' % i) for i in range(len(progs))]
+    if spec.get('numeric_names'):
+        # a process may be called "200" (while another process HAS pid 200): a process filter matches names and pids alike
+        tm = [(t, p, b'%d' % (100 * ((i + 1) % len(progs) + 1))) for i, (t, p, _) in enumerate(tm)]
     if spec['unmapped_last'] and len(tm) > 1:
         tm = tm[:-1]
     if spec.get('no_map'):
@@ -112,7 +115,7 @@ def pred(b, cfg):
 def resolve_cfg(step, tm, dynamic):
     cfg = dict(step['cfg'])
     tm = tm or [(SC.PROGRAM_TIDS[0], 100, b'P0_main')]
-    procs = [None, tm[0][2].decode(), str(tm[0][1]), 'no-such-process', str(tm[-1][1]), 'P1_Xx']
+    procs = [None, tm[0][2].decode(), str(tm[0][1]), 'no-such-process', str(tm[-1][1]), 'P1_Xx', tm[-1][2].decode()]
     cfg['process'] = procs[cfg['process_i'] % len(procs)]
     tids = [None, tm[0][0], SC.PROGRAM_TIDS[1], 0x999, SC.PROGRAM_TIDS[2]]
     cfg['tid'] = tids[cfg['tid_i'] % len(tids)]
@@ -350,9 +353,9 @@ def strategy():
     programs = st.lists(st.lists(op, min_size=1, max_size=5), min_size=2, max_size=3)
     fspec = st.fixed_dictionaries({'programs': programs, 'schedule': st.lists(st.integers(0, 2), max_size=60),
                                    'dynamic': st.sampled_from([False, False, True]), 'unmapped_last': st.booleans(),
-                                   'no_map': st.sampled_from([False, False, False, True])})
+                                   'no_map': st.sampled_from([False, False, False, True]), 'numeric_names': st.sampled_from([False, False, False, True])})
     cfg = st.fixed_dictionaries({
-        'tid_i': st.sampled_from([0, 0, 1, 2, 3, 4]), 'process_i': st.sampled_from([0, 0, 0, 1, 2, 3, 4, 5]),
+        'tid_i': st.sampled_from([0, 0, 1, 2, 3, 4]), 'process_i': st.sampled_from([0, 0, 0, 1, 2, 3, 4, 5, 6, 1]),
         'classes': st.one_of(st.just([]), st.lists(st.sampled_from(CLASSES), min_size=1, max_size=3)),
         'subclasses': st.one_of(st.just([]), st.just([]), st.lists(st.sampled_from(BSD_SUBCLASSES), min_size=1, max_size=2)),
         'as_tuple': st.sampled_from([False, False, True]), 'in_place': st.sampled_from([False, False, True])})
